@@ -16,8 +16,8 @@ NOTE_M = ('Trusted: Lean kernel (axioms propext, Classical.choice, Quot.sound on
 
 CLAIMS = {
  'C01': (M, 'proof',
-  'Theorems: Reed-Solomon decoding from any k distinct symbols returns exactly the encoded source symbols (both fields, all 1<=k<=n<=2^m-1); Gaussian-elimination stage of LDPC/2D decoding: whatever the solver model returns is the transmitted block (C01_ml_sound, from the soundness/uniqueness theorem of the solver). The set-level behaviour of the iterative decoder is the closure theorem of C04; its value-level soundness is not a theorem and is covered by the byte-exact oracle. The models are run against the real library on every receive set for small n, both APIs, with callbacks, and sampled large blocks; the direct oracle compares every non-NULL entry of of_get_source_symbols_tab with the encoded symbol byte for byte.',
-  'Lean 4 theorems over hand model + differential correspondence + byte-exact oracle', 'DESIGN.md section 4, C01'),
+  'Theorems: Reed-Solomon decoding from any k distinct symbols returns exactly the encoded source symbols (both fields, all 1<=k<=n<=2^m-1). LDPC-Staircase / 2D, value level, whole sessions: the invariant "every stored symbol value is the transmitted one, and the partial sum of every equation is the sum of the transmitted values of its remaining entries" holds after configuration (C01_ldpc_configured, including the even-N1 decoder that pretends to have received the zero last repair symbol), is preserved by every submission through the recursive iterative decoder (C01_it_sound), by the simplification of the linear system (C01_simplify_sound), the Gaussian elimination (C01_ml_sound) and the write-back, for any sequence of submissions (any order, duplicates, either API) and of_finish_decoding calls, before and after the matrix has been consumed by an elimination (C01_ldpc_session_sound). Hypotheses: symbol addition is XOR-like and the transmitted block satisfies the parity-check equations. The models are run against the real library on every receive set for small n, both APIs, with callbacks, sampled large blocks, and histories that continue after of_finish_decoding; the direct oracle compares every non-NULL entry of of_get_source_symbols_tab with the encoded symbol byte for byte.',
+  'Lean 4 invariant proof over hand model (IT + ML, whole sessions) + differential correspondence + byte-exact oracle', 'DESIGN.md section 0.2 and section 4, C01'),
  'C02': (M, 'proof',
   'Theorems (Mathlib Lagrange interpolation over Field instances built from the bit-level multiplication): the model generator is the '
   'systematic Vandermonde/Lagrange generator on points 0,1,x,x^2,..., any k distinct encoding symbols determine every source symbol, fewer '
@@ -25,8 +25,8 @@ CLAIMS = {
   'compared with the model; decoder correspondence on all k-subsets for small n and sampled up to n=255/15.',
   'Lean 4 theorems (Lagrange/MDS) + exhaustive generator correspondence', 'DESIGN.md section 4, C02'),
  'C03': (M, 'proof',
-  'Theorems over the solver model transliterated from of_ml_tool.c (forward elimination with row exchange, backward substitution), for any p x q system with p >= q and symbols in any XOR-like structure: C03_solve_iff_full_rank (success <=> the only 0/1 kernel vector of the coefficient matrix is zero, with a constructive kernel vector on failure), C03_solve_unique / C03_solve_sound (the answer is the only assignment that can satisfy the equations, and does satisfy all of them when the system is consistent), C03_success_is_rank_test (the outcome depends on the matrix only: not on payloads, order or API). The simplification step before elimination is modelled and tied by correspondence. Tie: of_finish_decoding on the real library vs the model and vs an independent GF(2) rank oracle over loss patterns concentrated where iterative decoding fails.',
-  'Lean 4 theorems over the elimination model + rank oracle on the real decoder', 'DESIGN.md section 4, C03'),
+  'Session/code level: C03_finish_ok_iff_determined: of_finish_decoding on the session model returns OK IF AND ONLY IF every codeword that vanishes on the symbols the decoder knows vanishes on the k source symbols (the sources are uniquely determined), for every well-formed staircase matrix and every decoder state; proved from: kernel vectors of the simplified system = codewords vanishing on the known symbols, the staircase makes determined sources imply determined repairs, fewer equations than unknowns imply a non-zero kernel vector (C03_few_equations_undetermined), and C03_determined_by_received (known symbols can be replaced by received symbols: the zero set of a codeword is closed under peeling). Solver level, for any p x q system with p >= q and symbols in any XOR-like structure: C03_solve_iff_full_rank, C03_solve_unique / C03_solve_sound, C03_success_is_rank_test (the outcome depends on the matrix only: not on payloads, order or API). Tie: of_finish_decoding on the real library vs the model and vs an independent GF(2) rank oracle over loss patterns concentrated where iterative decoding fails, with and without duplicate submissions.',
+  'Lean 4 theorems (finish OK iff sources determined; elimination model) + rank oracle on the real decoder', 'DESIGN.md section 0.2 and section 4, C03'),
  'C04': (M, 'proof',
   'Theorem C04_eq: for every well-formed matrix and every finite submission sequence (any order, duplicates), the set known to the '
   'transliterated streaming decoder equals the peeling closure of the received set; order/duplicate independence as corollary. Tie: '
@@ -50,12 +50,12 @@ CLAIMS = {
   '(RS GF(2^m) n>2^m-1, required by the pinned suite).',
   'Lean 4 theorem (accept iff within limits) + boundary-grid correspondence', 'DESIGN.md section 4, C09'),
  'C10': (M, 'proof',
-  'Theorems over the session model: finish=OK iff complete afterwards, FAILURE iff not, completion is monotone, submissions return OK, a '
+  'Theorems over the session model: finish=OK iff complete afterwards, FAILURE iff not, completion is monotone (Reed-Solomon; and LDPC-Staircase/2D in every decoder state, C10_ldpc_finish_truthful), submissions return OK, a '
   'source symbol submitted while unknown is reported by the very pointer. Tie: traced sessions (query after every call) on all receive '
-  'sets for small n, both APIs, callbacks, finish after completion and with fewer than k symbols; direct oracle on statuses.',
+  'sets for small n, both APIs, callbacks, finish after completion and with fewer than k symbols, histories that continue after of_finish_decoding (second finish, late symbols); direct oracle on statuses.',
   'Lean 4 theorems over session state machine + traced correspondence', 'DESIGN.md section 4, C10'),
  'C11': (M, 'proof',
-  'Theorems: callback events are exactly the missing source ESIs, never a received one, value stored where the policy says, NULL falls '
+  'Theorems: callback events are exactly the missing source ESIs, each once, never a received one (Reed-Solomon; Gaussian-elimination stage of LDPC-Staircase/2D: C11_ldpc_finish_events), value stored where the policy says, NULL falls '
   'back to a library buffer. Tie: sorted event multisets, buffer identity and contents on loss patterns per decoding stage (IT, ML).',
   'Lean 4 theorems over callback model + event-multiset correspondence', 'DESIGN.md section 4, C11'),
  'C13': (M, 'proof',
@@ -86,7 +86,7 @@ CLAIMS = {
   'Theorems over a model that keeps what the C structure keeps (traversal order of every row and every column, entry pool counters): the invariant (sorted rows and columns, row/column consistency, bounds, free + used = 1024 x blocks) is preserved by EVERY operation sequence (C17_run_inv); find (last-of-row, last-of-column, parallel scan) <=> membership; idempotent insert; delete; clear; copy, copyrows, copycols, copy_filled_matrix specifications. Tie: generated operation sequences on real matrices (all traversals forwards and backwards, find on every cell, pool counters after each mutation; every sequence up to length 4/5 over a 12-operation alphabet; random long ones with recycled entries and several pool blocks; sparse<->dense conversions on widths spanning several words) under ASan/LSan, compared with the model and with a Python set oracle.',
   'Lean 4 refinement proof (list model -> set) + operation-sequence correspondence', 'DESIGN.md section 4, C17'),
  'C18': (M, 'proof',
-  'Theorems: the packed-word operations (get, set, flip, clear, xor_rows, copy, copyrows) equal the bit-matrix operation for every dimension and preserve the representation invariant; all popcount helpers, translated from the C source each run, equal the bit count for EVERY word: of_hweight32_naive, the SWAR routines of_hweight32 (all w < 2^32) and of_popcount_3 (all x < 2^64; byte-lane decomposition, per-lane facts by kernel evaluation over one byte, final multiplication/folding by linear arithmetic), the byte table of_hw8table and the four-lookup sum of of_hweight32_table; the solver theorems of C03 (unique solution iff full column rank, failure otherwise). copycols and the row/column weight loops are tied by correspondence. Tie: every exported dense operation on dimensions across word boundaries vs the model and a Python bit-matrix oracle; solver on all 0/1 systems with p,q<=3 with every NULL pattern of the right-hand sides and random systems up to 40x40.',
+  'Theorems: the packed-word operations (get, set, flip, clear, xor_rows, copy, copyrows) equal the bit-matrix operation for every dimension and preserve the representation invariant; all popcount helpers, translated from the C source each run, equal the bit count for EVERY word: of_hweight32_naive, the SWAR routines of_hweight32 (all w < 2^32) and of_popcount_3 (all x < 2^64; byte-lane decomposition, per-lane facts by kernel evaluation over one byte, final multiplication/folding by linear arithmetic), the byte table of_hw8table and the four-lookup sum of of_hweight32_table; the bit macros of of_matrix_dense.h (getbit, setbit1, setbit0, word/bit index, words per row), translated each run through wrapper functions, are the primitives of the dense model (C18_macro_*); the solver theorems of C03 (unique solution iff full column rank, failure otherwise). copycols and the row/column weight loops are tied by correspondence. Tie: every exported dense operation on dimensions across word boundaries vs the model and a Python bit-matrix oracle; solver on all 0/1 systems with p,q<=3 with every NULL pattern of the right-hand sides and random systems up to 40x40.',
   'Lean 4 theorems (bit-matrix, solver) + exhaustive small-system correspondence', 'DESIGN.md section 4, C18'),
  'C08': (M, 'proof',
   'Partial by nature: theorem over the allocation-ledger model (what the application owns after release is exactly the library-allocated '
